@@ -203,6 +203,9 @@ func Convert(value any, typ reflect.Type) (any, error) { //nolint: gocyclo
 			}
 			return result.Interface(), nil
 		} else if r, ok := value.(Range); ok {
+			if r.Len() > maxRangeArrayLen {
+				return nil, typeErrorf("range too large to convert to an array (%d items)", r.Len())
+			}
 			return r.AsArray(), nil
 		}
 		switch rv.Kind() {
